@@ -1102,6 +1102,24 @@ theorem nf_mapM' {α β} (f : α → R β) (hf : ∀ a, NF (f a)) : ∀ l : List
 
 theorem nf_runeCount (s : Bytes) : NF (runeCount s) := by unfold runeCount; nf_auto
 
+theorem nf_resOfFlt (r : Flt.Res) : NF (resOfFlt r) := by unfold resOfFlt; nf_auto
+
+theorem nf_sliceIntArg (a : Val) : NF (sliceIntArg a) := by unfold sliceIntArg; nf_auto
+
+theorem nf_sliceFilter (v : Val) (a : List Val) : NF (sliceFilter v a) := by
+  unfold sliceFilter
+  repeat' first | nf_core | with_reducible exact nf_sliceIntArg _ | split
+
+theorem nf_sortFilter (v : Val) : NF (sortFilter v) := by
+  unfold sortFilter
+  repeat' first | nf_core | with_reducible exact nf_resOfFlt _ | split
+
+theorem nf_splitFilter (v : Val) (a : List Val) : NF (splitFilter v a) := by
+  unfold splitFilter
+  repeat' first | nf_core | with_reducible exact nf_resOfFlt _ | split
+
+theorem nf_capitalizeFilter (v : Val) : NF (capitalizeFilter v) := by unfold capitalizeFilter; nf_auto
+
 /-- for the `Option (R _)` tables of built-ins -/
 def NFO {α} (o : Option (R α)) : Prop := ∀ r, o = some r → NF r
 theorem NFO.none {α} : NFO (none : Option (R α)) := by intro r h; cases h
@@ -1120,6 +1138,10 @@ macro "nf_leaf" : tactic => `(tactic| repeat' first
   | with_reducible exact nf_toIntV _
   | with_reducible exact nf_runeCount _
   | with_reducible exact nf_mapM' _ nf_toStr _
+  | with_reducible exact nf_sliceFilter _ _
+  | with_reducible exact nf_sortFilter _
+  | with_reducible exact nf_splitFilter _ _
+  | with_reducible exact nf_capitalizeFilter _
   | split)
 
 theorem nf_builtinFilter (n : Bytes) (v : Val) (a : List Val) : NFO (builtinFilter n v a) := by
